@@ -10,7 +10,9 @@ A pattern that no longer matches raises = broken tie.
   src/express/express.c, info.c  exit statuses
   src/exppp/exppp.c              wrap()/raw() formatting buffers, wrap()'s continuation line
   src/exppp/pretty_expr.c        EXPRlength buffer, EXPRstring fixed texts, EXPRstring_bound constants
-  src/exp2cxx/class_strings.c    StrToLower/StrToUpper/StrToConstant newword[MAX_LEN+1] loops
+  src/exp2cxx/class_strings.c, src/exp2python/src/classes_misc_python.c   StrToLower/StrToUpper/StrToConstant loops
+  src/exp2cxx/classes_wrapper.cc, src/exp2python/src/classes_wrapper_python.cc   identifier-length gate
+  src/exp2cxx/classes_type.c     TypeDescription buffer;   src/exppp/pretty_schema.c  exppp_filename_buffer
 """
 import os, re
 
@@ -331,22 +333,101 @@ def exppp(repo):
     return dict(wrap=(wcap, wcall), raw=(rcap, rcall), line=line, elen=elen, fixed=fixed, sep=sep)
 
 
-# ---------------------------------------------------------------- exp2cxx name case functions
+# ---------------------------------------------------------------- exp2cxx / exp2python name case functions
 def names(repo):
-    t = _strip_comments(_read(repo, "src/exp2cxx/class_strings.c"))
-    h = _strip_comments(_read(repo, "src/exp2cxx/class_strings.h"))
-    env = {"MAX_LEN": _define(h, "MAX_LEN", "class_strings.h")}
     out = []
-    for fn in ("StrToLower", "StrToUpper", "StrToConstant"):
-        b = _body(t, r"const\s+char\s*\*\s*" + fn + r"\s*\(\s*const\s+char\s*\*\s*word\s*\)\s*\{", fn)
-        m = re.search(r"static\s+char\s+newword\s*\[\s*([^\]]+)\]\s*;", b)
-        w = re.search(r"while\s*\(\s*word\s*\[\s*i\s*\]\s*!=\s*'\\0'\s*(?:&&\s*i\s*<\s*([^)]+?)\s*)?\)\s*\{", b)
-        if not m or not w or not re.search(r"newword\s*\[\s*i\s*\]\s*=\s*'\\0'\s*;", b):
-            raise ValueError(f"class_strings.c: {fn} not recognised")
-        cap = _eval(m.group(1), env, fn + " newword size")
-        lim = _eval(w.group(1), env, fn + " loop bound") if w.group(1) else None
-        out.append((fn, cap, lim))
+    for tool, src, hdr in (("exp2cxx", "src/exp2cxx/class_strings.c", "src/exp2cxx/class_strings.h"),
+                           ("exp2python", "src/exp2python/src/classes_misc_python.c", "src/exp2python/src/classes.h")):
+        t = _strip_comments(_read(repo, src))
+        h = _strip_comments(_read(repo, hdr))
+        env = {"MAX_LEN": _define(h, "MAX_LEN", hdr)}
+        for fn in ("StrToLower", "StrToUpper", "StrToConstant"):
+            b = _body(t, r"const\s+char\s*\*\s*" + fn + r"\s*\(\s*const\s+char\s*\*\s*word\s*\)\s*\{", f"{src}: {fn}")
+            m = re.search(r"static\s+char\s+newword\s*\[\s*([^\]]+)\]\s*;", b)
+            w = re.search(r"while\s*\(\s*word\s*\[\s*i\s*\]\s*!=\s*'\\0'\s*(?:&&\s*i\s*<\s*([^)]+?)\s*)?\)\s*\{", b)
+            if not m or not w or not re.search(r"newword\s*\[\s*i\s*\]\s*=\s*'\\0'\s*;", b):
+                raise ValueError(f"{src}: {fn} not recognised")
+            cap = _eval(m.group(1), env, fn + " newword size")
+            lim = _eval(w.group(1), env, fn + " loop bound") if w.group(1) else None
+            out.append((f"{tool}.{fn}", cap, lim))
     return out
+
+
+def gates(repo):
+    """the identifier-length gate of the two generators: (tool, limit or None, MAX_LEN)"""
+    out = []
+    for tool, src, hdr, before in (("exp2cxx", "src/exp2cxx/classes_wrapper.cc", "src/exp2cxx/class_strings.h", r"ComplexCollect\s+col\s*\("),
+                                   ("exp2python", "src/exp2python/src/classes_wrapper_python.cc", "src/exp2python/src/classes.h", r"print_schemas_separate\s*\(")):
+        t = _strip_comments(_read(repo, src))
+        maxlen = _define(_strip_comments(_read(repo, hdr)), "MAX_LEN", hdr)
+        lim = None
+        m = re.search(r"#\s*define\s+MAX_IDENT_LEN\s+\(?\s*([^\n]+?)\s*\)?\s*\n", t)
+        if m:
+            pf = _body(t, r"\bprint_file\s*\(\s*Express\s+express\s*\)\s*\{", f"{src}: print_file")
+            call = re.search(r"check_identifier_lengths\s*\(\s*express\s*\)\s*;", pf)
+            first = re.search(before, pf)
+            try:
+                ck = _body(t, r"static\s+void\s+check_identifier_lengths\s*\(\s*Express\s+express\s*\)\s*\{", "check_identifier_lengths")
+                tl = _body(t, r"static\s+int\s+identifier_too_long\s*\([^)]*\)\s*\{", "identifier_too_long")
+                sc = _body(t, r"static\s+int\s+scope_names_too_long\s*\([^)]*\)\s*\{", "scope_names_too_long")
+            except ValueError:
+                ck = tl = sc = ""
+            ok = (call and first and call.start() < first.start()
+                  and re.search(r"if\s*\(\s*scope_names_too_long\s*\(\s*express\s*,\s*0\s*\)\s*\)\s*\{\s*exit\s*\(\s*EXPRESS_fail", ck)
+                  and re.search(r"if\s*\(\s*len\s*<=\s*MAX_IDENT_LEN\s*\)\s*\{\s*return\s+0\s*;", tl)
+                  and re.search(r"return\s+1\s*;", tl)
+                  and re.search(r"bad\s*\+=\s*identifier_too_long\s*\([^;]*de\.e->key", sc)
+                  and "s->symbol_table" in sc and "s->enum_table" in sc)
+            if ok:
+                lim = _eval(m.group(1), {"MAX_LEN": maxlen}, f"{src}: MAX_IDENT_LEN")
+        out.append((tool, lim, maxlen))
+    return out
+
+
+def description(repo):
+    """exp2cxx TypeDescription(): static buffer and whether every append into it is bounded"""
+    t = _strip_comments(_read(repo, "src/exp2cxx/classes_type.c"))
+    env = {}
+    m = re.search(r"#\s*define\s+TYPE_DESCRIPTION_SIZE\s+(\d+)", t)
+    if m:
+        env["TYPE_DESCRIPTION_SIZE"] = int(m.group(1))
+    td = _body(t, r"char\s*\*\s*TypeDescription\s*\(\s*const\s+Type\s+t\s*\)\s*\{", "TypeDescription")
+    m = re.search(r"static\s+char\s+buf\s*\[\s*([^\]]+)\]\s*;", td)
+    if not m:
+        raise ValueError("TypeDescription: static buffer not found")
+    cap = _eval(m.group(1), env, "TypeDescription buffer")
+    raw_appends = 0
+    for sig, what in ((r"void\s+strcat_expr\s*\([^)]*\)\s*\{", "strcat_expr"), (r"void\s+strcat_bounds\s*\([^)]*\)\s*\{", "strcat_bounds"),
+                      (r"void\s+Type_Description\s*\([^)]*\)\s*\{", "Type_Description"),
+                      (r"void\s+TypeBody_Description\s*\([^)]*\)\s*\{", "TypeBody_Description")):
+        b = _body(t, sig, what)
+        raw_appends += len(re.findall(r"\b(?:strcat|strcpy|sprintf)\s*\(\s*buf\b", b))
+    bounded = False
+    if raw_appends == 0:
+        dc = _body(t, r"static\s+void\s+desc_cat\s*\(\s*char\s*\*\s*buf\s*,\s*const\s+char\s*\*\s*s\s*\)\s*\{", "desc_cat")
+        bounded = bool(re.search(r"if\s*\(\s*used\s*\+\s*1\s*<\s*TYPE_DESCRIPTION_SIZE\s*\)\s*\{\s*strncat\s*\(\s*buf\s*,\s*s\s*,\s*TYPE_DESCRIPTION_SIZE\s*-\s*1\s*-\s*used\s*\)", dc))
+        if not bounded:
+            raise ValueError("desc_cat: bounded append not recognised")
+    return cap, bounded
+
+
+def exppp_filename(repo):
+    """exppp SCHEMAout(): exppp_filename_buffer[] and the length test before `sprintf( buf, "%s.exp", name )`"""
+    t = _strip_comments(_read(repo, "src/exppp/pretty_schema.c"))
+    m = re.search(r"char\s+exppp_filename_buffer\s*\[\s*(\d+)\s*\]\s*;", t)
+    if not m:
+        raise ValueError("pretty_schema.c: exppp_filename_buffer not found")
+    cap = int(m.group(1))
+    b = _body(t, r"char\s*\*\s*SCHEMAout\s*\(\s*Schema\s+s\s*\)\s*\{", "SCHEMAout")
+    sp = re.search(r"sprintf\s*\(\s*exppp_filename_buffer\s*,\s*\"%s(\.\w+)\"\s*,\s*s->symbol\.name\s*\)", b)
+    ap = re.search(r"strcat\s*\(\s*exppp_filename_buffer\s*,\s*\"(\.\w+)\"\s*\)", b)
+    if not sp:
+        raise ValueError("SCHEMAout: sprintf of the file name not found")
+    g = re.search(r"if\s*\(\s*strlen\s*\(\s*s->symbol\.name\s*\)\s*\+\s*sizeof\s*\(\s*\"([^\"]*)\"\s*\)\s*>\s*sizeof\s*\(\s*exppp_filename_buffer\s*\)\s*\)\s*\{(.*?)\}", b, re.S)
+    guard = None
+    if g and g.start() < sp.start() and re.search(r"return\s+0\s*;", g.group(2)):
+        guard = len(g.group(1)) + 1
+    return cap, len(sp.group(1)), (len(ap.group(1)) if ap else 0), guard
 
 
 def _opt(v):
@@ -359,6 +440,9 @@ def extract(repo):
     e = errors(repo)
     x = exppp(repo)
     nm = names(repo)
+    gt = gates(repo)
+    dcap, dbounded = description(repo)
+    fcap, fext, fapp, fguard = exppp_filename(repo)
     L = []
     A = L.append
     A("-- GENERATED by tools/extract.d/c06_buffers.py from src/express/lexact.c, src/express/generated/expparse.c,")
@@ -418,6 +502,16 @@ def extract(repo):
     A("/-- class_strings.c: `static char newword[MAX_LEN+1]` filled by a loop over the argument; `limit = some L`: loop stops at i = L -/")
     A("def caseFns : List (String × LoopCfg) := [")
     A(",\n".join(f'  ("{fn}", {{ cap := {cap}, limit := {_opt(lim)} }})' for fn, cap, lim in nm) + "]")
+    A("")
+    A("/-- identifier-length gate of the generators (`check_identifier_lengths` called first in `print_file`): (tool, limit, MAX_LEN) -/")
+    A("def identGates : List (String × Option Nat × Nat) := [")
+    A(",\n".join(f'  ("{tool}", {_opt(lim)}, {ml})' for tool, lim, ml in gt) + "]")
+    A("")
+    A("/-- exp2cxx `TypeDescription`: static buffer; `bounded` = every append goes through `desc_cat` (strncat with the room left) -/")
+    A(f"def descCfg : DescCfg := {{ cap := {dcap}, bounded := {str(dbounded).lower()} }}")
+    A("")
+    A("/-- exppp `SCHEMAout`: `exppp_filename_buffer[cap]`, `sprintf \"%s<ext>\"`, optional `strcat <app>`, `guard = some g`: refused when strlen(name) + g > cap -/")
+    A(f"def fileNameCfg : FileNameCfg := {{ cap := {fcap}, ext := {fext}, app := {fapp}, guard := {_opt(fguard)} }}")
     A("")
     A("end StepModel.Generated.C06")
     return {"C06Buffers.lean": "\n".join(L) + "\n"}
